@@ -16,6 +16,9 @@
 (*                                  plainend|-> "completed" | "error",     *)
 (*                                  plainerr|-> item number at which the   *)
 (*                                              plain run failed (0: no)] >>*)
+(* oracle = "pair": the verdict compares the two modes (C01); "plain-sem" /    *)
+(* "mux-sem": the verdict compares one mode with PlainSem (used for operators  *)
+(* that exist in one mode only, and for executions without inner taps).       *)
 (* One TLC step per group.  Verdict (the property): for every group the    *)
 (* two item sequences are equal, and a group fails in one mode iff it      *)
 (* fails in the other, at the same item.  When `modeled`, both are also    *)
@@ -43,10 +46,18 @@ TraceStep ==
     /\ st = "run"
     /\ IF l < Len(Tr.groups)
        THEN LET g == Tr.groups[l + 1] IN
-            IF (g.plainerr # 0) # (g.muxerr # 0) THEN Reject(l + 1, "error-in-one-mode-only")
-            ELSE IF g.plainerr # 0 /\ g.plainerr # g.muxerr THEN Reject(l + 1, "error-at-different-item")
+            IF Tr.oracle = "pair" /\ (g.plainerr # 0) # (g.muxerr # 0)
+                 THEN Reject(l + 1, "error-in-one-mode-only")
+            ELSE IF Tr.oracle = "pair" /\ g.plainerr # 0 /\ g.plainerr # g.muxerr
+                 THEN Reject(l + 1, "error-at-different-item")
+            ELSE IF Tr.oracle # "pair" /\ (g.plainerr # 0 \/ g.muxerr # 0)
+                 THEN Reject(l + 1, "unexpected-error")
             ELSE IF g.plainerr = 0 /\ g.plainend # "completed" THEN Reject(l + 1, "plain-did-not-complete")
-            ELSE IF g.mux # g.plain THEN Reject(l + 1, "mux-neq-plain")
+            ELSE IF Tr.oracle = "pair" /\ g.mux # g.plain THEN Reject(l + 1, "mux-neq-plain")
+            ELSE IF Tr.oracle = "plain-sem" /\ Items(PlainRun(Tr.pipe, g.items)) # g.plain
+                 THEN Reject(l + 1, "plain-semantics")
+            ELSE IF Tr.oracle = "mux-sem" /\ Items(MuxRun(Tr.pipe, g.items)) # g.mux
+                 THEN Reject(l + 1, "mux-semantics")
             ELSE /\ l' = l + 1
                  /\ insync' = (insync /\ (~Tr.modeled \/ g.plainerr # 0 \/
                                            (/\ Items(PlainRun(Tr.pipe, g.items)) = g.plain
